@@ -25,6 +25,14 @@ def oracle(ctx, specs, k, rnd, dups):
             rej = first_rejected(v, T)
             return ctx.fail("C04/value-not-admitted", [specs, k],
                             f"value {s} not a member of inferred {show(T)} (k={k}); innermost rejected: {rej[0]} {rej[1]!r}")
+    try:
+        Ts = tinfer.infer_via_store([vals.build(s) for s in specs], k)
+    except Exception as e:
+        return ctx.fail(f"C04/inference-raises:{type(e).__name__}", [specs, k, "via-store"], "merging decoded per-value types: " + repr(e))
+    for s, v in zip(specs, vs):
+        if not conforms(v, Ts):
+            return ctx.fail("C04/value-not-admitted", [specs, k, "via-store"],
+                            f"value {s} not a member of {show(Ts)} merged from the decoded per-value types (k={k})")
     if len(specs) >= 1:
         idx = list(range(len(specs)))
         rnd.shuffle(idx)
